@@ -16,8 +16,10 @@
    (kept only as the record of the repaired defect):
      fx_reorder  C17-F1 e8c17b3   fx_factor C17-F2 192568b   fx_match C17-F3 b484e3c
      fx_copy     C17-F4 adebd46   fx_gaps   C17-F6 b5c611b   fx_disjoint C17-F7 6cfe711
-   (C17-F5 e888c67 and C17-F8 55a866d concern pandas dtype / hash-seed effects the
-   model never contained: they have no switch, their repair is tested only.)
+     fx_nan      C17-F10 67be5b4
+   (C17-F5 e888c67, C17-F8 55a866d and C17-F9 0437d48 concern pandas dtype /
+   hash-seed / float64-representation effects the model never contained: they
+   have no switch, their repair is tested only.)
    [all_fixes] is the CURRENT /repo.  Models only -- proofs in Proofs/RemodelProofs.v. *)
 From Coq Require Import List NArith ZArith Arith Bool.
 From HV Require Import Base.Res Base.Str Model.RemodelJson Gen.RemodelParams.
@@ -186,11 +188,12 @@ Record fixes := {
   fx_match : bool;     (* b484e3c merge_consecutive: absent match_columns = [] *)
   fx_copy : bool;      (* adebd46 split_rows: absent copy_columns = [] *)
   fx_gaps : bool;      (* b5c611b merge_consecutive._update_durations: skip unused group numbers *)
-  fx_disjoint : bool   (* 6cfe711 remap_columns.validate_input_data: names of source+destination distinct *)
+  fx_disjoint : bool;  (* 6cfe711 remap_columns.validate_input_data: names of source+destination distinct *)
+  fx_nan : bool        (* 67be5b4 factor_column: a missing cell equals no factor value (not even "nan") *)
 }.
 (* the behaviour before ALL the fix commits (record only) / the current code *)
-Definition no_fixes : fixes := Build_fixes false false false false false false.
-Definition all_fixes : fixes := Build_fixes true true true true true true.
+Definition no_fixes : fixes := Build_fixes false false false false false false false.
+Definition all_fixes : fixes := Build_fixes true true true true true true true.
 
 (* --- remove_rows_op.py: RemoveRowsOp.do_op *)
 Definition do_remove_rows (cn : str) (vals : list pval) (t : table) : res table :=
@@ -245,7 +248,15 @@ Fixpoint uniq_strs (l : list str) : list str :=     (* first-occurrence order *)
 
 Definition col_cells (i : nat) (t : table) : list cell := map (get_cell i) (rows t).
 
-Fixpoint factor_loop (cn : str) (values : list str) (names : option (list str)) (idx : nat) (t : table)
+(* factor_column_op.py: df_new[col].notna() & df_new[col].map(str).isin([str(value)])
+   (before 67be5b4 without the notna(): str(NaN) = "nan" equalled the value "nan") *)
+Definition factor_hit (fx : fixes) (v : str) (c : cell) : bool :=
+  match c with
+  | CNa => if fx_nan fx then false else str_eqb (cell_str c) v
+  | _ => str_eqb (cell_str c) v
+  end.
+
+Fixpoint factor_loop (fx : fixes) (cn : str) (values : list str) (names : option (list str)) (idx : nat) (t : table)
   : res table :=
   match values with
   | [] => Ok t
@@ -259,8 +270,8 @@ Fixpoint factor_loop (cn : str) (values : list str) (names : option (list str)) 
               match nth_error ns idx with
               | None => Exn IndexError
               | Some column =>
-                  let f := map (fun c => if str_eqb (cell_str c) v then CNum 1 else CNum 0) (col_cells i t) in
-                  factor_loop cn vs names (S idx) (set_col column f t)
+                  let f := map (fun c => if factor_hit fx v c then CNum 1 else CNum 0) (col_cells i t) in
+                  factor_loop fx cn vs names (S idx) (set_col column f t)
               end
           end
       end
@@ -285,7 +296,7 @@ Definition do_factor_column (fx : fixes) (cn : str) (values names : option (list
                   | Some (n :: ns) => n :: ns
                   | _ => map (dot_name cn) values1
                   end in
-    factor_loop cn values1 (Some names1) 0 t
+    factor_loop fx cn values1 (Some names1) 0 t
   else
     match values with
     | None => Exn TypeError                             (* len(None) *)
@@ -294,9 +305,9 @@ Definition do_factor_column (fx : fixes) (cn : str) (values names : option (list
         | None => Exn KeyError
         | Some i =>
             let vs := uniq_strs (map cell_str (col_cells i t)) in
-            factor_loop cn vs (Some (map (dot_name cn) vs)) 0 t
+            factor_loop fx cn vs (Some (map (dot_name cn) vs)) 0 t
         end
-    | Some vs => factor_loop cn vs names 0 t
+    | Some vs => factor_loop fx cn vs names 0 t
     end.
 
 (* --- remap_columns_op.py: RemapColumnsOp.do_op with KeyMap.remap/_remap.
